@@ -1342,7 +1342,7 @@ class PPrintModelEngine(Engine):
     return 0 if tier == 'quick' else 4
 
   def corpus(self):
-    return [{'seed': 0, 'n': 300, 'nbind': 150}]
+    return [{'seed': 0, 'n': 200, 'nbind': 100}]
 
   def gen(self, rng, tier):
     return {'seed': rng.randrange(1, 10 ** 6), 'n': 1500, 'nbind': 400}
@@ -1395,7 +1395,7 @@ class PPrintStrEngine(PPrintModelEngine):
   script = 'pprint_str_corr.py'
 
   def corpus(self):
-    return [{'seed': 0, 'n': 250}]
+    return [{'seed': 0, 'n': 150}]
 
   def gen(self, rng, tier):
     return {'seed': rng.randrange(1, 10 ** 6), 'n': 1200}
@@ -1414,5 +1414,31 @@ class ConfigTextStrEngine(ConfigTextEngine):
     return [{'seed': 0, 'n': 80}]
 
 
-ENGINES = [SerialEngine(), ValueTextEngine(), DynStrEngine(), CornerEngine(), AtomModelEngine(), PPrintModelEngine(), ConfigTextEngine(),
-           PPrintStrEngine(), ConfigTextStrEngine()]
+class ModelledTextsEngine(Engine):
+  """The five correspondences between the Coq models of TEXTS and the real thing, run side by side (each is a separate
+  process driving coqc): atom-model (Model/StrLit.v vs CPython's repr / literal_eval), pprint-model and pprint-str-model
+  (Model/PPrint.v, Model/PPrintStr.v vs pprint.pformat; format_binding vs gin), config-text and config-text-str
+  (Model/ConfigText*.v vs gin.config_str() of /repo, character for character).  One case = one seed of one generator."""
+  name = 'modelled-texts'
+  model = False
+  parallel_small = True
+  PARTS = [AtomModelEngine(), PPrintModelEngine(), ConfigTextEngine(), PPrintStrEngine(), ConfigTextStrEngine()]
+
+  def budget(self, tier):
+    return 0 if tier == 'quick' else 15
+
+  def corpus(self):
+    return [dict(c, which=e.name) for e in self.PARTS for c in e.corpus()]
+
+  def gen(self, rng, tier):
+    e = rng.choice(self.PARTS)
+    return dict(e.gen(rng, tier), which=e.name)
+
+  def impl(self, case):
+    e = [x for x in self.PARTS if x.name == case['which']][0]
+    r = e.impl({k: v for k, v in case.items() if k != 'which'})
+    r['tags'] = [case['which'] + ':' + t for t in r.get('tags', [])]
+    return r
+
+
+ENGINES = [SerialEngine(), ValueTextEngine(), DynStrEngine(), CornerEngine(), ModelledTextsEngine()]
